@@ -50,21 +50,42 @@ pub struct O {
     pub lits: Vec<&'static str>,
     pub kind: Kind,
     pub ty: Ty,
+    /// unique token of every doc comment line written on the field (empty = undocumented)
+    pub doc: Vec<&'static str>,
+}
+impl O {
+    pub fn d(mut self, doc: &[&'static str]) -> Self {
+        self.doc = doc.to_vec();
+        self
+    }
 }
 #[derive(Clone, Debug)]
 pub struct P {
     pub name: &'static str,
     pub req: bool,
     pub ty: Ty,
+    pub doc: Vec<&'static str>,
+}
+impl P {
+    pub fn d(mut self, doc: &[&'static str]) -> Self {
+        self.doc = doc.to_vec();
+        self
+    }
 }
 #[derive(Clone, Debug)]
 pub struct Sub {
     pub optional: bool,
     pub vars: Vec<(&'static str, Option<Grammar>)>,
+    /// doc tokens written on the `#[cli(subcommand)]` field itself
+    pub field_doc: Vec<&'static str>,
+    /// doc tokens of each enum variant (same order as `vars`), one per doc line
+    pub var_docs: Vec<Vec<&'static str>>,
 }
 #[derive(Clone, Debug)]
 pub struct Grammar {
     pub name: &'static str,
+    /// doc tokens written on the struct
+    pub doc: Vec<&'static str>,
     pub opts: Vec<O>,
     pub pos: Vec<P>,
     pub sub: Option<Sub>,
